@@ -1855,7 +1855,16 @@ def measure_reinit_policy(repo):
             out["opening_quote_rule"] = " ".join(body.split())[:160]
             out["alloc_always"] = "string_new" in body and re.search(r"\bif\s*\(", body) is None
         m = re.search(r'^<C_STRING><<EOF>>\s*\{(.*?)^\}', lex, re.S | re.M)
-        out["eof_frees"] = bool(m and "string_delete" in m.group(1) and re.search(r"string_value\s*=\s*NULL", m.group(1)))
+
+        def frees(body):
+            return "string_delete" in body and re.search(r"string_value\s*=\s*NULL", body) is not None
+        # the rule frees the buffer itself, or calls `f()`, a parameterless function of this file whose body does:
+        #   static void string_abandon(void) { parse_result = 1; if (string_value != NULL) { string_delete(string_value); string_value = NULL; } BEGIN(INITIAL); }
+        freeing = [hm.group(1) for hm in re.finditer(r"^(?:static\s+)?(?:inline\s+)?void\s+(\w+)\s*\(\s*(?:void)?\s*\)\s*\{(.*?)^\}", lex, re.S | re.M)
+                   if frees(hm.group(2))]
+        out["eof_frees"] = bool(m and (frees(m.group(1)) or any(re.search(r"\b%s\s*\(\s*\)\s*;" % re.escape(h), m.group(1)) for h in freeing)))
+        if freeing:
+            out["string_freeing_helpers"] = freeing
         # the policy of coq/VM/ApiGlobalCwd.v: the two chdir(cwd) of fopen_path's search loop
         m = re.search(r"^FILE \* fopen_path\([^)]*\)\s*\{.*?^\}", lex, re.S | re.M)
         w = re.search(r"while \(\(path = strtok.*", m.group(0), re.S) if m else None
